@@ -211,6 +211,11 @@ class HWorld:
         via = cmd.get("via", "m")
         if kind == "set":
             v = unhx(cmd["v"])
+            if "vh" in cmd:
+                keys = sorted(self.db.raw())
+                if keys:
+                    v = keys[cmd["vh"] % len(keys)]
+                    self.st.probe("value-is-a-node-hash")
             if not v:
                 kind = "sete"
         if kind == "set":
